@@ -105,7 +105,119 @@ theorem step_ok {p : Params} {l : List Item} {n idx start : Nat} {pending : Opti
               obtain ⟨h1, h2, h3⟩ := h
               subst h3
               refine ⟨brk, skip, k, w, pen, hb, hk, h2.symm, hw, hpen, ?_, ?_⟩
-              · rw [← h1]; rfl
+              · rw [← h1]
               · rw [← h1]; simpa [Line.flat] using hpack
+
+/-! ## list surgery -/
+
+theorem list_split (l : List Item) (start b : Nat) (it : Item) (hs : start ≤ b)
+    (hb : l[b]? = some it) :
+    l.drop start = (l.drop start).take (b - start) ++ it :: l.drop (b + 1) := by
+  have hlt : b < l.length := by
+    rcases Nat.lt_or_ge b l.length with h | h
+    · exact h
+    · rw [List.getElem?_eq_none h] at hb; cases hb
+  have h1 : (l.drop start).drop (b - start) = l.drop b := by
+    rw [List.drop_drop]; congr 1; omega
+  have h2 : l.drop b = it :: l.drop (b + 1) := by
+    rw [List.drop_eq_getElem_cons hlt]
+    have : l[b] = it := by
+      have := List.getElem?_eq_getElem hlt
+      rw [this] at hb; exact Option.some.inj hb
+    rw [this]
+  calc l.drop start = (l.drop start).take (b - start) ++ (l.drop start).drop (b - start) :=
+        (List.take_append_drop _ _).symm
+    _ = _ := by rw [h1, h2]
+
+theorem take_take_drop (xs : List Item) (r k : Nat) :
+    xs.take r ++ (xs.drop r).take k = xs.take (r + k) := by
+  rw [List.take_add]
+
+theorem shouldPrune_pendOf (it : Item) : shouldPrune (pendOf it) = (postOf (some it)).isEmpty := by
+  cases it <;> simp [shouldPrune, pendOf, postOf]
+
+theorem goneAfter_eq (l : List Item) (b nb k : Nat) (it : Item) (hb : l[b]? = some it)
+    (hk : pruneAfter l (pendOf it) (b + 1 + it.replace) (nb :: rest) = .ok k) :
+    goneAfter l b nb = (l.drop (b + 1)).take (it.replace + k) := by
+  unfold goneAfter
+  rw [hb]
+  simp only
+  unfold pruneAfter at hk
+  rw [shouldPrune_pendOf] at hk
+  by_cases hp : (postOf (some it)).isEmpty = true
+  · simp only [hp, if_true] at hk ⊢
+    have := (pruneCount_spec _ _ _ hk).2
+    rw [this, ← take_take_drop, List.drop_drop]
+  · simp only [hp] at hk ⊢
+    simp at hk
+    subst hk
+    simp
+
+/-! ## conservation -/
+
+theorem go_conserve (p : Params) (l : List Item) (n : Nat) :
+    ∀ (bs : List Nat) (idx start : Nat) (pending : Option (List Elem)) (prev : Option Item)
+      (lo : Nat) (lines : List Line),
+      validFrom l lo bs = true →
+      postOf prev = pendingItems pending →
+      go p l n idx start pending bs = .ok lines →
+      reassembleFrom p prev (lines.map Line.flat) (droppedOf l bs) = some (l.drop start) := by
+  intro bs
+  induction bs with
+  | nil => intro idx start pending prev lo lines hv; simp [validFrom] at hv
+  | cons b rest ih =>
+    intro idx start pending prev lo lines hv hprev h
+    simp only [go] at h
+    split at h
+    · simp at h
+    · rename_i ln start' pend' hstep
+      split at h
+      · simp at h
+      · rename_i ls hgo
+        simp only [Except.ok.injEq] at h
+        subst h
+        obtain ⟨hsb, hbl, brk, skip, k, w, pen, hbrk, hprune, hstart', _, _, hln, _⟩ := step_ok hstep
+        have hflat : ln.flat = leftPart p ++ (postOf prev ++
+            ((l.drop start).take (b - start) ++ (brk ++ [.glue 0 p.rightSkip]))) := by
+          rw [hln, hprev]; rfl
+        cases rest with
+        | nil =>
+          simp only [validFrom, Bool.and_eq_true, decide_eq_true_eq] at hv
+          have hb : b = l.length := hv.2
+          have hnone : l[b]? = none := by rw [hb]; simp
+          rw [hnone] at hbrk
+          simp only [breakPart, Except.ok.injEq, Prod.mk.injEq] at hbrk
+          obtain ⟨hbrk1, _, _⟩ := hbrk
+          simp only [go, Except.ok.injEq] at hgo
+          subst hgo
+          simp only [List.map_cons, List.map_nil, droppedOf, reassembleFrom]
+          rw [hflat, lineBody_flat p prev none _ brk (by rw [← hbrk1])]
+          congr 1
+          apply List.take_of_length_le
+          simp; omega
+        | cons nb rest' =>
+          simp only [validFrom, Bool.and_eq_true, decide_eq_true_eq] at hv
+          obtain ⟨⟨_, hlt⟩, hv2⟩ := hv
+          cases hit : l[b]? with
+          | none => rw [hit] at hv2; simp at hv2
+          | some it =>
+            rw [hit] at hv2 hbrk
+            simp only [Bool.and_eq_true] at hv2
+            obtain ⟨hisb, hvrest⟩ := hv2
+            rw [breakPart_some it hisb] at hbrk
+            simp only [Except.ok.injEq, Prod.mk.injEq] at hbrk
+            obtain ⟨hbrk1, hpend, hskip⟩ := hbrk
+            subst hpend hskip
+            have hgone := goneAfter_eq l b nb k it hit hprune
+            have hih := ih (idx + 1) start' (pendOf it) (some it) _ ls hvrest (postOf_pendOf it) hgo
+            simp only [List.map_cons, droppedOf, hit, reassembleFrom]
+            rw [hflat, lineBody_flat p prev (some it) _ brk (by rw [← hbrk1])]
+            simp only [Option.bind_some]
+            rw [hih]
+            simp only [Option.map_some, Option.some.injEq]
+            have : l.drop (b + 1 + it.replace + k) = (l.drop (b + 1)).drop (it.replace + k) := by
+              rw [List.drop_drop]; congr 1; omega
+            rw [hgone, hstart', this, List.cons_append, List.take_append_drop]
+            exact (list_split l start b it hsb hit).symm
 
 end C12
